@@ -652,9 +652,11 @@ fn c05_case(ctx: &Ctx, case: u64, acc: &mut Acc) -> Verdict {
     let victim = r.usize(n);
     if asymmetric {
         // a single live member loses all its traffic (both ways, or only inbound)
-        let inbound_only = r.chance(1, 2);
-        f.sim.isolate = Some((victim, !inbound_only, true));
-        shape = format!("asymmetric victim={victim} inbound_only={inbound_only}");
+        // all of its traffic, only what it should receive, or only what it sends (it then hears the cluster
+        // declare it down and renews while nobody can hear it)
+        let (out, inn) = *r.pick(&[(true, true), (false, true), (true, false)]);
+        f.sim.isolate = Some((victim, out, inn));
+        shape = format!("asymmetric victim={victim} outbound_lost={out} inbound_lost={inn}");
     } else {
         // every split shape with at least two members on one side: side sizes 1..n-1, membership chosen by seed
         let side1 = 1 + (case as usize / 5) % (n - 1);
@@ -796,7 +798,7 @@ pub fn c05() -> Check {
     Check {
         id: "C05",
         level: "exploration",
-        rule: "formed clusters of 3..=6 (quick) / 3..=10 (thorough) renewable instances with notify_down_members and announce-to-down (num_members >= n) are partitioned (side sizes 1..n-1 cycled by case index, members of the sides seeded; every 5th case isolates a single member, both ways or inbound only), held until every cross pair is mutually Down (premise, else inconclusive), healed at a seeded instant. Oracle: full mutual view under current identities within 4A+(4n+4) periods; told-down instances report Rejoin with a winning identity, never Defunct, then Active. Distinct by (n, shape, A, heal offset).",
+        rule: "formed clusters of 3..=6 (quick) / 3..=10 (thorough) renewable instances with notify_down_members and announce-to-down (num_members >= n) are partitioned (side sizes 1..n-1 cycled by case index, members of the sides seeded; every 5th case isolates a single member: both ways, inbound only or outbound only), held until every cross pair is mutually Down (premise, else inconclusive), healed at a seeded instant. Oracle: full mutual view under current identities within 4A+(4n+4) periods; told-down instances report Rejoin with a winning identity, never Defunct, then Active. Distinct by (n, shape, A, heal offset).",
         assumptions: &["announce-to-down num_members >= n so that every Down record is announced to each period (with fewer, which record is picked is random and no finite bound is deterministic)"],
         required: &["partitions_healed", "instances_renewed", "split_cases", "asymmetric_cases"],
         workloads: vec![Workload { name: "partition", f: c05_case, quick: 3_200, thorough: 200_000, flav: Flav::Checked }],
